@@ -20,6 +20,7 @@ EXPLANATION = (
     ' (ARITH __add via __ADD) tuple `+` combines elements with the scalar dispatcher because the checker admits str + str on elements; (CHECKER-AGREES neg) unary minus on tuples is admitted and implemented.'
     ' (function-of-its-operands) __eq/__lt/__le read only their two operands and write nothing: no verdict depends on earlier comparisons.'
     ' (PIPE lowering/emission - shared with C01) the operator written is the one the runtime applies to the evaluated operands: no arm of the lowering computes an operator itself for some operands.'
+    ' (MAYBE-SHAPE, shared with C18) variants made by the library and variants the compiler writes have one shape, so `==` on enum values does not depend on who made them.'
 )
 UNDECIDED = "the laws over all run-time values (NaN, functions inside composites), and metamethod dispatch rules of the target Lua version."
 
